@@ -263,7 +263,7 @@ def _realise_path(case):
     DEN = 64
     for bound in (3, 6):
         s = z3.Solver()
-        s.set("timeout", 60000)
+        s.set("timeout", 20000)
         for r in range(R):
             s.add(a[r] >= 0, a[r] <= bound)
             for p in range(Pn):
